@@ -145,6 +145,14 @@ def ss_pairs(tab, ssidx):
     return out
 
 
+def ss_index(tab):
+    """index of the subsystem channel, read back from the regenerated Lean table"""
+    src = open(os.path.join(gen.OUT, tab["ns"] + ".lean")).read()
+    m = re.search(r"def chanNames : List String := \[(.*?)\]\n", src)
+    names = re.findall(r'"([^"]*)"', m.group(1))
+    return names.index("subsystem")
+
+
 class Scenario:
     def __init__(self):
         self.model = "V"
@@ -152,6 +160,8 @@ class Scenario:
         self.events = []     # (pid, ev) ev as in L2Ref plus ("type", th, typeid, label)
         self.mcv = {}        # index -> mcv for ss events
         self.note = "legal"
+        self.expect = None   # reference automaton's verdict: "ok" | index of the refused event | "finish"
+        self.finding_key = None   # stable key when the scenario probes a recorded finding
 
 
 def note_transition(res, ref, e):
@@ -182,7 +192,7 @@ def fixed_scenarios(tabs):
     """Subsystem stack capacity: 511 pushes leave room for the running-body push, 512 do not."""
     out = []
     tab = tabs["nosv"]
-    pairs = ss_pairs(tab, 4)
+    pairs = ss_pairs(tab, ss_index(tab))
     pu, po, val = pairs[0]
     for n in (511, 512):
         sc = Scenario()
@@ -193,6 +203,7 @@ def fixed_scenarios(tabs):
         sc.events += [(10, ("sspush", 100, val, pu))] * n
         sc.events += [(10, ("task", 100, "x", 1, 0)), (10, ("task", 100, "e", 1, 0))]
         sc.events += [(10, ("sspop", 100, val, po))] * n
+        sc.expect = "ok" if n == 511 else 2 + n
         out.append(sc)
     # label length limit of task_type_create (MAX_PCF_LABEL)
     for n in (511, 512):
@@ -202,6 +213,24 @@ def fixed_scenarios(tabs):
         sc.procs = [dict(pid=10, appid=1, rank=None, threads=[100], labels={1: b"L" * n})]
         sc.events = [(10, ("type", 100, 1, b"L" * n)), (10, ("create", 100, "c", 1, 1)),
                      (10, ("task", 100, "x", 1, 0)), (10, ("task", 100, "e", 1, 0))]
+        sc.expect = "ok" if n == 511 else 0
+        out.append(sc)
+    # Finding probe: a Nanos6 history made only of task events that is legal in the pure life-cycle
+    # (task 2 nested over the PAUSED task 1).  The Nanos6 subsystem channel refuses the second
+    # "running body" push (no CHAN_ALLOW_DUP), so the emulator rejects it unless some other
+    # subsystem state was entered in between; nOS-V allows the duplicate.  Expectation here = the
+    # property text (accepted); the model (which follows the code) rejects at event 5.
+    for (note, mid) in (("nanos6-nest-over-paused", [("task", 100, "p", 1, 0)]), ("nanos6-nest-relaxed", [])):
+        sc = Scenario()
+        sc.model = "6"
+        sc.note = note
+        sc.procs = [dict(pid=10, appid=1, rank=None, threads=[100], labels={1: b"ty"})]
+        evs = [("type", 100, 1, b"ty"), ("create", 100, "c", 1, 1), ("create", 100, "c", 2, 1),
+               ("task", 100, "x", 1, 0)] + mid + [("task", 100, "x", 2, 0), ("task", 100, "e", 2, 0)]
+        evs += ([("task", 100, "r", 1, 0)] if mid else []) + [("task", 100, "e", 1, 0)]
+        sc.events = [(10, e) for e in evs]
+        sc.expect = "ok"
+        sc.finding_key = "e2e:nanos6:nested-execute-needs-subsystem-change"
         out.append(sc)
     return out
 
@@ -211,7 +240,7 @@ def gen_scenario(r, tabs, res):
     sc.model = r.choice(["V", "V", "6"])
     mname = "nosv" if sc.model == "V" else "nanos6"
     tab = tabs[mname]
-    ssidx = tab["chanNames"].index("subsystem") if "chanNames" in tab else (4 if sc.model == "V" else 2)
+    ssidx = ss_index(tab)
     ss_dup = tab["chanDup"][ssidx]
     st_body = 11 if sc.model == "V" else 1
     pairs = ss_pairs(tab, ssidx)
@@ -283,6 +312,7 @@ def gen_scenario(r, tabs, res):
                 sc.note = "illegal-" + (e[2] if e[0] == "task" else e[0])
             else:
                 continue
+            sc.expect = len(sc.events)
             sc.events.append((pr["pid"], e))
             continue    # the reference state is not advanced: the emulator stops here
         if not legal:
@@ -330,6 +360,9 @@ def gen_scenario(r, tabs, res):
     else:
         if sc.note == "legal":
             sc.note = "legal-undrained"
+    if sc.expect is None:
+        empty = all(not refs[pr["pid"]].ss.get(th) for pr in sc.procs for th in pr["threads"])
+        sc.expect = "ok" if empty else "finish"
     res.dist("e2e-model:" + mname)
     res.dist("e2e-kind:" + sc.note)
     return sc
@@ -452,7 +485,7 @@ def check_e2e(res, prep, r, tier, tabs, replay_sc=None):
             res.dist("e2e-model-reject-at:" + ("finish" if firstbad == ne else lines[off + nh + firstbad].split()[1]))
         if i < 2:
             res.sample({"e2e_script": lines[off: off + nh + ne + 1][:14], "ovniemu": v, "model": want})
-        replay = "# e2e scenario\n" + repr(dict(model=sc.model, procs=sc.procs, events=sc.events, note=sc.note)) + "\n# script:\n# " + script.replace("\n", "\n# ")
+        replay = "# e2e scenario\n" + repr(dict(model=sc.model, procs=sc.procs, events=sc.events, note=sc.note, expect=sc.expect)) + "\n# script:\n# " + script.replace("\n", "\n# ")
         # where did the emulator stop?  (the panic block names the raw clock of the event)
         where = None
         if v == "reject":
@@ -463,6 +496,17 @@ def check_e2e(res, prep, r, tier, tabs, replay_sc=None):
                 where = ne
             else:
                 where = "?"
+        # the reference automaton (written from the documentation) against the implementation
+        if sc.expect is not None:
+            got = "ok" if v == "ok" else ("finish" if where == ne else where)
+            if got != sc.expect:
+                key = sc.finding_key or f"e2e:oracle-verdict:{sc.note}:{sc.model}"
+                if res.violation(key,
+                                 f"life-cycle reference expects {sc.expect} (ok / index of refused event / finish) but ovniemu -l: {got}",
+                                 replay + "\n# ovniemu stderr tail:\n# " + err[-1200:].replace("\n", "\n# ")):
+                    found = True
+                    continue
+                res.dist("e2e-known-finding:" + sc.note)
         if v != want or (v == "reject" and where != firstbad):
             found = True
             res.violation(f"e2e:verdict:{sc.note}:{sc.model}",
@@ -562,7 +606,9 @@ def check(res, tier, replay=None):
                        "2 stacks x flag pairs, all 256 pairs in thorough) and random histories; dumps compared after every "
                        "operation and checked by an independent property oracle. X2: random nOS-V/Nanos6 task histories "
                        "over 1-3 threads / 1-2 processes with single illegal mutations through ovniemu -l: verdict and "
-                       "thread.prv timelines of the task types vs the model, plus a PRV oracle. non-trivial = at least one "
+                       "thread.prv timelines of the task types vs the model; independently the verdict and the refused event are compared "
+                       "with a reference automaton written from the documentation, and a PRV oracle checks the view (channels set "
+                       "together, type/app id/rank of the shown task, no body shown by two threads at once). non-trivial = at least one "
                        "state operation / thread event executed")
     res.assumptions = ["threads stay Running for the whole history (the tracking muxes are C06's)",
                        "uthash tables behave as finite maps; string hash of the type label computed outside the model",
@@ -584,6 +630,7 @@ def check(res, tier, replay=None):
                 d = eval(txt.split("# e2e scenario\n", 1)[1].split("\n", 1)[0])
                 sc = Scenario()
                 sc.model, sc.procs, sc.events, sc.note = d["model"], d["procs"], d["events"], d["note"]
+                sc.expect = d.get("expect")
                 found |= check_e2e(res, prep, r, tier, tabs, replay_sc=sc)
             else:
                 ls = [l.strip() for l in txt.split("\n") if l.startswith("task ")]
